@@ -155,12 +155,19 @@ pub fn render(s: &Spec) -> Rendered17 {
         let mut t = n.to_string();
         let ann = (s.ann_mask >> i) & 1 == 1;
         let dflt = any_default || (s.default_mask >> i) & 1 == 1;
+        // the upper bits of the masks choose the spelling: nested brackets with their own commas
+        // (and trailing commas) inside an annotation or a default value
         if ann {
-            t.push_str(": int");
+            t.push_str(match (s.ann_mask >> 4) % 4 {
+                0 | 1 => ": int",
+                2 => ": Tuple[int, int,]",
+                _ => ": Dict[str, List[int]]",
+            });
         }
         if dflt {
             any_default = true;
-            t.push_str(if ann { " = 1" } else { "=1" });
+            let v = if (s.default_mask >> 4) % 3 == 2 { "(1,)" } else { "1" };
+            t.push_str(&if ann { format!(" = {}", v) } else { format!("={}", v) });
         }
         parts.push(t);
     }
